@@ -164,6 +164,8 @@ def oracle_dims(c, out):
     n = c["n"]
     if n < 3 or n % 3 != 0:
         return []                    # not a whole, positive number of three-board units: nothing is promised
+    if n >= 3 * 2 ** 52:
+        return []                    # beyond the stated bound of the float square root (see assumptions)
     if out[0] == "hang":
         return [("std_dims", "standard_system_dimensions(%d) did not return" % n)]
     a, b = squarest_pair(n // 3)
@@ -284,9 +286,10 @@ def gen_cases(rng, tier):
         m = max(m, 2)
         for k in (m * m, m * (m + 1), m * (m - 1)):    # all have a divisor close to sqrt(k): short loops
             ns.append(3 * k)
+    ns.append(3 * 2 ** 1100)                           # float(k) overflows: OverflowError
     for n in ns:
         # the model's loop counter is a unary number: beyond k = 10^9 only the oracle judges the code
-        cases.append(dict(k="dims", n=n, cls="dims" if n <= 3 * 10 ** 9 else "dims-large"))
+        cases.append(dict(k="dims", n=n, cls="dims" if n <= 3 * 10 ** 9 else ("dims-overflow" if n >= 2 ** 1030 else "dims-large")))
     # every k up to a bound, judged by the sieve oracle only (the model is compared on the cases above)
     top = 10 ** 6 if big else 60000
     step = 20000
@@ -297,7 +300,7 @@ def gen_cases(rng, tier):
 
 # ------------------------------------------------------------------ Coq side
 HEADER = ("From Coq Require Import ZArith List. Import ListNotations. Open Scope Z_scope.\n"
-          "Require Import Rig.Model.Base Rig.Model.Board.\n")
+          "Require Import Rig.Model.Base Rig.Model.Board Rig.Model.BoardSqrt.\n")
 
 
 def coq_expr(c, out):
@@ -307,7 +310,7 @@ def coq_expr(c, out):
                 % (zlit(c["w"]), zlit(c["h"]), zlit(c["rx"]), zlit(c["ry"]),
                    zlit(c["w"]), zlit(c["h"]), zlit(c["rx"]), zlit(c["ry"])))
     if c["k"] == "dims":
-        return "standard_system_dimensions %s" % zlit(c["n"])
+        return "standard_system_dimensions_f %s" % zlit(c["n"])     # the binary64 model of the code
     fn = dict(local="spinn5_local_eth_coord", chip="spinn5_chip_coord", fpga="spinn5_fpga_link",
               eth="spinn5_eth_coords")[c["f"]]
     return "%s %s" % (fn, " ".join(zlit(a) for a in c["args"]))
@@ -353,13 +356,16 @@ def canon_impl(c, o):
 
 def run(chk, args):
     chk.trusted += ["numpy integer array indexing inside the array, dict.get on tuple keys, IntEnum equality with int",
-                    "math.sqrt on exact doubles (compared with Z.sqrt over the stated range only)"]
+                    "math.sqrt is the correctly rounded IEEE-754 square root (Flocq Bsqrt, round to nearest even); "
+                    "Reals-library axioms of the float theorems are listed per theorem"]
     chk.assumptions += [
         "coordinates, dimensions, root offsets, link numbers and board counts are Python ints",
-        "int(math.sqrt(k)) = floor(sqrt(k)): the theorem about standard_system_dimensions is about the model with "
-        "Z.sqrt; the model is compared with the code for board counts 3k with every k <= %s, and the code is judged "
-        "by exact integer arithmetic for every k <= %s and for perfect squares and their neighbours up to 2^52 "
-        "(sampled)" % (("30000", "10^6") if chk.tier != "quick" else ("400", "60000")),
+        "standard_system_dimensions is modelled over IEEE-754 binary64 (Flocq): float(k) rounded to nearest even, "
+        "correctly rounded math.sqrt, truncating int(); C19_float_isqrt_exact proves int(sqrt(k)) = Z.sqrt k for "
+        "0 <= k < 2^52 and the squarest theorem is stated for 1 <= k < 2^52 (board counts below 3 * 2^52); the "
+        "binary64 model is compared with the code for every board count 3k, k <= %s, and the code is judged by exact "
+        "integer arithmetic for every k <= %s and for perfect squares and their neighbours up to 2^52 (sampled)"
+        % (("30000", "10^6") if chk.tier != "quick" else ("400", "60000")),
         "a machine is either a torus whose width and height are positive multiples of 12, or a ragged machine "
         "in which only boards whose Ethernet chip lies inside the machine are judged for spinn5_local_eth_coord"]
     chk.regenerate(UNITS)
@@ -403,7 +409,7 @@ def run(chk, args):
             nontrivial = True
         else:
             bad = oracle_dims(c, o)
-            nontrivial = c["n"] >= 3 and c["n"] % 3 == 0
+            nontrivial = 3 <= c["n"] < 3 * 2 ** 52 and c["n"] % 3 == 0
         chk.note_case({k: v for k, v in c.items() if k != "cls"}, nontrivial)
         for key, what in bad:
             if key not in seen:
